@@ -116,6 +116,30 @@ def check_hash_input_coverage(ck, R):
             ok = any("call:update" in outer.deps(r.value) or "call:hexdigest" in outer.deps(r.value) for r in outer.returns() if r.value is not None and isinstance(r.value, ast.Name))
         ck.ob(R, outer.key(None, attr), ok, "%s reaches the digest" % attr if ok else
               "%s (%s) is not part of the code hash: editing a default value keeps the version, and a stale result is served" % (attr, why), outer.where())
+    # every return of a code-based hash passes the reads of the defaults (no early exit, e.g.
+    # through a cache keyed by the code object alone)
+    def_reads = []
+    for st in outer.stmts():
+        for n in A.walk_local(st):
+            if (isinstance(n, ast.Attribute) and n.attr in FUNC_RELEVANT) or \
+                    (isinstance(n, ast.Call) and A.call_attr(n) == "getattr" and len(n.args) >= 2 and A.const_str(n.args[1]) in FUNC_RELEVANT):
+                if isinstance(st, (ast.Assign, ast.Expr, ast.AugAssign, ast.AnnAssign, ast.Return)):
+                    def_reads.append((A.const_str(n.args[1]) if isinstance(n, ast.Call) else n.attr, st))
+    by_attr = {}
+    for (a, st) in def_reads:
+        by_attr.setdefault(a, []).append(st)
+    for r in outer.returns():
+        if r.value is None:
+            continue
+        v = r.value
+        if isinstance(v, ast.Call) and A.call_attr(v) in ("repr", "_stable_repr", "str") and [A.norm(a) for a in v.args] == ["fn"]:
+            continue  # the documented fallback for callables without code
+        for attr in FUNC_RELEVANT:
+            nodes = outer.nodes_all(by_attr.get(attr, []))
+            ok = bool(nodes) and all(outer.cfg.must_pass(nodes, i) for i in outer.nodes(r))
+            ck.ob(R, outer.key(r, "return-after-" + attr), ok, "this return is reached only after %s was read" % attr if ok else
+                  "fn_code_hash can return a code hash without reading %s on that path (early return / cache keyed by the code object): "
+                  "a definition re-executed with only a default changed keeps its version" % attr, outer.where(r))
     # the code of the *unwrapped* function is hashed
     unw = [w for w in outer.stmts(ast.While) if "__wrapped__" in A.norm(w.test)]
     ck.ob(R, outer.key(None, "unwrap"), bool(unw), "decorator wrappers are unwrapped before hashing" if unw else
@@ -381,12 +405,36 @@ def _stable_repr_function(ck, name):
     fi = m.functions.get(name)
     if fi is None:
         return False
+    param = fi.params[0] if fi.params else "o"
     for i in [n for n in A.walk_body(fi.node) if isinstance(n, ast.If)]:
         it = A.isinstance_types(i.test)
         if it and "frozenset" in it[1]:
-            txt = " ".join(A.norm(s) for s in i.body)
-            if "sorted(" in txt:
-                return True
+            # every iteration over the set must be a comprehension mapping the elements through
+            # this very function, wrapped directly in sorted(...): the order is then the order of
+            # canonical strings, which exists for mixed-type sets and does not depend on the seed
+            ok_any = False
+            for st in i.body:
+                for n in ast.walk(st):
+                    if isinstance(n, ast.Name) and n.id == param and isinstance(n.ctx, ast.Load):
+                        # find how this occurrence is used
+                        pm = A.parent_map(st)
+                        par = pm.get(n)
+                        if isinstance(par, ast.Call) and A.call_attr(par) == "type":
+                            continue
+                        if isinstance(par, ast.comprehension) and par.iter is n:
+                            comp = pm.get(par)
+                            outer = pm.get(comp)
+                            elt = getattr(comp, "elt", None)
+                            good = isinstance(elt, ast.Call) and A.call_attr(elt) == name and isinstance(outer, ast.Call) and A.call_attr(outer) == "sorted" \
+                                and outer.args and outer.args[0] is comp and not outer.keywords
+                            if good:
+                                ok_any = True
+                                continue
+                        return False
+            # no fallback path that iterates in raw order (e.g. except TypeError: list(o))
+            if any(isinstance(n, ast.Try) for st in i.body for n in ast.walk(st)):
+                return False
+            return ok_any
     return False
 
 
@@ -471,6 +519,19 @@ def check_ordered_iteration(ck, R):
     ok = "call:sorted" in d
     ck.ob(R, fa.key(lp.ast, "sorted"), ok, "rules are digested in sorted order" if ok else
           "the digest loop iterates an unordered set: the version depends on hash randomisation / definition order", fa.where(lp.ast))
+    # the order must be total on the rule set: the rules' own ordering (on the unique key) or a
+    # key function that includes that key
+    srt = [c for c in fa.calls("sorted")] + [c for c in fa.calls("sort")]
+    for c in srt:
+        k = A.kwarg(c, "key")
+        okk = k is None
+        if k is not None and isinstance(k, ast.Lambda):
+            p0 = k.args.args[0].arg if k.args.args else None
+            okk = any(isinstance(n, ast.Attribute) and n.attr == "key" and isinstance(n.value, ast.Name) and n.value.id == p0 for n in ast.walk(k.body))
+        okk = okk and A.kwarg(c, "reverse") is None
+        ck.ob(R, fa.key(c, "total-order"), okk, "rules are ordered by their unique key" if okk else
+              "rules are sorted with `%s`, which does not include the unique rule key: rules that tie keep the hash-seed dependent "
+              "set order and the digest differs between processes" % A.short(k, 60), fa.where(c))
     base = ck.repo.cls(CH + ".HashRule")
     fields = {}
     for nm in ("__lt__", "__eq__", "__hash__"):
@@ -763,14 +824,42 @@ def check_dotted_names(ck, R):
         ck.ob(R, fa.key(None, "chain-forms"), okk, "chains through attributes, calls and names are resolved" if okk else
               "the chain evaluator no longer handles %s" % sorted({"ast.Attribute", "ast.Call", "ast.Name"} - kinds), fa.where())
     ups = [c for c in fa.calls("update") if A.norm(A.call_recv(c)) == "local_vars"]
-    srcs = {A.norm(c.args[0]) for c in ups if c.args}
-    okl = srcs == {"code_obj.co_varnames", "code_obj.co_cellvars"}
+    srcs = set()
+    for c in ups:
+        if c.args:
+            ch = None
+            for i in fa.nodes(c):
+                ch = fa.df.chains(c.args[0], i)
+            srcs |= ch if ch else {"<not a plain attribute of fn.__code__>: " + A.norm(c.args[0])}
+    okl = srcs == {"fn.__code__.co_varnames", "fn.__code__.co_cellvars"}
     ck.ob(R, fa.key(None, "locals-removed"), okl, "exactly co_varnames and co_cellvars are treated as local" if okl else
           "the set of names treated as local is %s (expected co_varnames and co_cellvars): globals are dropped or locals kept" % sorted(srcs), fa.where())
     du = [c for c in fa.calls("difference_update") if A.norm(A.call_recv(c)) == "result"]
     okd = len(du) == 2
     ck.ob(R, fa.key(None, "difference"), okd, "locals and chains rooted at locals are subtracted" if okd else
           "list_dotted_names no longer subtracts both locals and local-rooted chains", fa.where())
+    # chains are removed only when their FIRST COMPONENT is a local (membership of the part before
+    # the first '.', not a string-prefix test)
+    tr = [s for s in fa.stmts(ast.Assign) if any(isinstance(t, ast.Name) and t.id == "to_remove" for t in s.targets)]
+    okc = False
+    if len(tr) == 1 and isinstance(tr[0].value, (ast.SetComp, ast.ListComp, ast.GeneratorExp)):
+        comp = tr[0].value
+        var = A.norm(comp.generators[0].target)
+        conds = []
+        for c in comp.generators[0].ifs:
+            conds += A.conj_atoms(c)
+        for c in conds:
+            if isinstance(c, ast.Compare) and len(c.ops) == 1 and isinstance(c.ops[0], ast.In) and A.norm(c.comparators[0]) == "local_vars":
+                left = A.norm(c.left)
+                if left in ("%s[0:%s.find('.')]" % (var, var), "%s[:%s.find('.')]" % (var, var), "%s.split('.')[0]" % var,
+                            "%s.split('.', 1)[0]" % var, "%s.partition('.')[0]" % var):
+                    okc = True
+        if any(isinstance(n, ast.Call) and A.call_attr(n) == "startswith" for n in ast.walk(comp)):
+            okc = False
+        okc = okc and A.norm(comp.generators[0].iter) == "result"
+    ck.ob(R, fa.key(None, "local-rooted-chains"), okc, "a dotted name is dropped only when its first component is a local" if okc else
+          "dotted names are not filtered by membership of their first component in the locals (e.g. a string-prefix test): "
+          "`steps.base` is dropped when a parameter is called `step`, and the dependency disappears from the closure", fa.where())
     src = [c for c in fa.calls("getsource")]
     okg = len(src) == 1 and [A.norm(a) for a in src[0].args] == ["fn"]
     ck.ob(R, fa.key(None, "own-source"), okg, "the function's own source is parsed" if okg else "list_dotted_names does not parse inspect.getsource(fn)", fa.where())
